@@ -517,6 +517,72 @@ func init() {
 						c01Total(r, "degenerate.patch.Add", d.name, w, func() { patch.Add(d.mk(), p, "id", fhir.ID("x"), &patch.Options{}) })
 					}
 				}},
+				{Name: "custom-functions", N: 1, Note: "functions added with AddFunction (0..2 typed parameters, variadic, failing, returning nil) in every composition of depth <=2 of themselves and each other, as receiver, argument, criterion, projection and operand, with arguments of every kind (right type, wrong type, empty, multi-item): compile and every entry point return", Run: func(i int, r *core.Rec) {
+					opts := []fhirpath.CompileOption{
+						compopts.AddFunction("inc", func(_ system.Collection, n system.Integer) (system.Collection, error) {
+							return system.Collection{n + 1}, nil
+						}),
+						compopts.AddFunction("min", func(_ system.Collection, a, b system.Integer) (system.Collection, error) {
+							if a < b {
+								return system.Collection{a}, nil
+							}
+							return system.Collection{b}, nil
+						}),
+						compopts.AddFunction("size", func(in system.Collection) (system.Collection, error) {
+							return system.Collection{system.Integer(int32(len(in)))}, nil
+						}),
+						compopts.AddFunction("tag", func(in system.Collection, s system.String) (system.Collection, error) {
+							return append(system.Collection{s}, in...), nil
+						}),
+						compopts.AddFunction("all2", func(in system.Collection, xs ...system.Any) (system.Collection, error) {
+							return system.Collection{system.Integer(int32(len(xs)))}, nil
+						}),
+						compopts.AddFunction("boom", func(in system.Collection) (system.Collection, error) { return nil, fmt.Errorf("boom") }),
+						compopts.AddFunction("none", func(in system.Collection) (system.Collection, error) { return nil, nil }),
+					}
+					atoms := []string{"1", "'a'", "{}", "(1 | 2)", "Patient.name.given", "Patient.name.given.count()", "true", "1.5", "@2020-01-01", "Patient", "size()", "boom()", "none()", "Patient.name.size()"}
+					calls1 := []string{"inc(%s)", "tag(%s)", "all2(%s)", "Patient.name.inc(%s)", "Patient.name.given.tag(%s)", "Patient.name.select(inc(%s))", "Patient.name.where(inc(%s) = 2)", "inc(%s) + 1", "1 + inc(%s)", "Patient.name.given[inc(%s)]", "iif(true, inc(%s), 0)", "inc(%s).size()"}
+					calls2 := []string{"min(%s, %s)", "all2(%s, %s)", "Patient.name.min(%s, %s)", "min(%s, %s) = 1"}
+					var progs []string
+					for _, a := range atoms {
+						for _, c := range calls1 {
+							progs = append(progs, fmt.Sprintf(c, a))
+						}
+					}
+					// compositions: every one-argument call applied to every one-argument call, and pairs in the two-argument ones
+					inner := []string{"inc(1)", "inc(Patient.name.given.count())", "tag('x')", "min(9, 5)", "all2(1, 2)", "inc({})", "inc('a')", "boom()", "size()", "Patient.name.where(inc(given.count()) = 2).given.count()"}
+					for _, in1 := range inner {
+						for _, c := range calls1 {
+							progs = append(progs, fmt.Sprintf(c, in1))
+						}
+						for _, in2 := range inner {
+							for _, c := range calls2 {
+								progs = append(progs, fmt.Sprintf(c, in1, in2))
+							}
+						}
+					}
+					for _, a := range atoms[:6] {
+						for _, b := range atoms[:6] {
+							for _, c := range calls2 {
+								progs = append(progs, fmt.Sprintf(c, a, b))
+							}
+						}
+					}
+					progs = append(progs, "inc(inc(inc(1)))", "min(min(9, 5), min(3, inc(1)))", "Patient.name.select(inc(inc(given.count())))", "tag(tag('x').first())", "all2(all2(1), all2(), all2(1, 2, 3))")
+					in := []fhir.Resource{lib.Patient()}
+					for _, src := range progs {
+						var e *fhirpath.Expression
+						var err error
+						w := core.W{"src": src}
+						r.State("custom-functions")
+						r.Nontrivial(src)
+						if c01Total(r, "custom-function.Compile", "custom", w, func() { e, err = fhirpath.Compile(src, opts...) }) && err == nil && e != nil {
+							c01EvalAll(r, "custom-function.Evaluate", "custom", e, in, w)
+							c01Total(r, "custom-function.Evaluate-again", "custom", w, func() { e.Evaluate(in) })
+							c01Total(r, "custom-function.Evaluate-no-input", "custom", w, func() { e.Evaluate(nil) })
+						}
+					}
+				}},
 				{Name: "patch", N: 1, Note: "operations x paths x values (right, sibling, wrong, nil) x indexes in [-1, len+1] on hand-sized resources; nil resource", Run: func(i int, r *core.Rec) {
 					paths := []string{"Patient", "Patient.name", "Patient.name[0]", "Patient.name[0].given", "Patient.name.given[1]", "Patient.active", "Patient.deceased", "Patient.multipleBirth", "Patient.gender", "Patient.birthDate",
 						"Patient.telecom.where(system = 'phone')", "Patient.telecom.first().rank", "Patient.extension('http://u')", "Patient.extension[0].value", "Patient.managingOrganization", "Patient.managingOrganization.reference",
